@@ -170,7 +170,7 @@ pub fn c11_terminal<const SYM: u8, const STEP: usize, const KIND: u8>(inp: &Inp)
         }
     };
     assert!(r2 == want, "C11: the image position reports a result that is not the image of the result");
-    vcover!(r1.is_some(), "C11 witness: a finished position");
+    vcover_if!(KIND != KIND_PUSH, r1.is_some(), "C11 witness: a finished position");
     vcover!(r1.is_none() && s.board.all().count_ones() > 4, "C11 witness: an unfinished position");
     std::mem::forget(g1);
     std::mem::forget(g2);
